@@ -281,8 +281,50 @@ def run(repo='/repo', tier='quick'):
                                      ('htp_tx_data_t', 'tx', 'len', 5, 'a data record is filled completely before it is handed on'),
                                      ('htp_tx_data_t', 'len', 'tx', 5, 'a data record is filled completely before it is handed on')],
                   'fields that change together: the stream offset moves wherever the read offset of the same direction is advanced past consumed bytes, and a body data record gets its transaction and its length in the same step')
+    c06i(db, res)
     return res
 
+
+def c06i(db, res):
+    """A wire byte is counted once. A state function that has added a line to *_message_len and then un-reads that line
+    (moves the read offset back so that the next state takes the bytes as body) hands the same bytes to a second accounting
+    site: the hand-over of the body state counts them again."""
+    res.rule('C06.i', 'wire bytes are counted once: in every state function, on no path is an addition to *_message_len followed by a backward move of the read offset (-= or reset to 0) of the same direction unless the count is taken back on that path - the bytes that are un-read are counted again by the state that re-reads them')
+    n = 0
+    for d, side in (('in', 'request'), ('out', 'response')):
+        fld = '%s_message_len' % side
+        off = '%s_current_read_offset' % d
+        for name in P.state_functions(db, d):
+            f = db.get(name)
+            adds = [(b, i, w) for b, i, w in P.field_writes(f, fld) if w.get('op') in ('+=',) or (w.get('k') == 'un' and w['op'].startswith('++'))]
+            if not adds:
+                continue
+            for b, i, w in adds:
+                n += 1
+                bad = None
+                try:
+                    paths = P.enum_paths_seq(f, (b, i), max_paths=50000)
+                except AnalysisBroken:
+                    res.unknown('C06.i', '%s:count-then-rewind' % name, 'too many paths after the accounting statement', w['loc'])
+                    continue
+                for atoms, events, end, seq in paths:
+                    back = taken = None
+                    for x in seq:
+                        if x[0] != 'stmt':
+                            continue
+                        if any(y.get('op') == '-=' for y in P.assigns_field(x[3], fld)):
+                            taken = x[3]
+                        for y in P.assigns_field(x[3], off):
+                            if (y.get('op') == '-=' or (y.get('op') == '=' and is_lit(y['r'], 0))) and taken is None:
+                                back = y
+                    if back is not None:
+                        bad = back
+                key = '%s:count-then-rewind' % name
+                if bad is not None:
+                    res.violated('C06.i', key, '%s adds the line to %s and then moves the read offset back over it: the state that re-reads those bytes as body counts them a second time, so the reported message length exceeds the bytes taken from the wire' % (name, fld), bad['loc'])
+                else:
+                    res.holds('C06.i', key, 'no path un-reads bytes that were already counted', w['loc'])
+    res.floor('C06.i', 'direct additions to *_message_len in state functions', n, 4)
 
 
 def central_accounting(db, proc, fld):
